@@ -15,9 +15,18 @@ CHECK = {
                             "reassigned_from_source_with_centres_used", "reassigned_from_checked_source",
                             "reassigned_by_move", "reassigned_twice", "reassigned_from_copy_of_itself",
                             "reassigned_target_never_used", "reassigned_target_indexes_used",
-                            "reassigned_target_centres_used", "reassigned_target_fully_checked"],
+                            "reassigned_target_centres_used", "reassigned_target_fully_checked",
+                            "reassigned_from_own_getters", "reassigned_after_2p8_history", "reassigned_after_2p16_history",
+                            "move_constructed", "value_semantics", "copy_constructed_from_used_object",
+                            "copy_assigned_from_used_object", "move_constructed_from_copy_of_used_object",
+                            "move_assigned_from_copy_of_used_object",
+                            "alias_range_is_resolution", "alias_resolution_is_bound", "own_count_passed_as_axis",
+                            "ctor_args_temporaries", "ctor_args_moved",
+                            "zero_special", "integer_bounds", "point_origin", "point_equal_components"],
     "required_oracles": ["in_bounds", "half_cell", "exact.half_cell", "centre_maps_to_own_index",
-                         "spacing", "exact.spacing", "cover", "exact.cover", "cells_have_centres"],
+                         "spacing", "exact.spacing", "cover", "exact.cover", "cells_have_centres",
+                         "resolution_getter", "result_stable", "call_form_independent", "same_as_fresh_object",
+                         "source_unaffected_by_copy_use", "copy_survives_source"],
     "required_counters": ["points_checked", "exact_regime_coordinates", "centres_mapped_back",
                           "centre_pairs_checked", "shards_with_ge_90pct_decisive_axes"],
     "rule": "case = one grid: scalar/dimension = case index mod 4 (float2, double2, float3, double3); resolution dyadic "
@@ -29,7 +38,22 @@ CHECK = {
             "and in 34 % of the cases re-used: after serving nothing / indexes only / centres only / all oracles it is "
             "assigned a second, independently drawn configuration (from a never-queried temporary, from a source whose "
             "indexes or centres were already used, from a fully checked source, by move, twice in a row, or from a copy of "
-            "itself) and all oracles run again on the same object against the new parameters; per grid "
+            "itself, from a mapping built out of references returned by its own getter, or after 2^8+k (1/150 of the cases) / "
+            "2^16+k (1/6000, full-size workloads only) alternating assignments followed by as many queries) and all oracles "
+            "run again on the same object against the new parameters, plus a bitwise comparison of a fixed probe (counts, "
+            "resolution, table fingerprints, indexes and centres of the two extreme corners and the middle) with a freshly "
+            "constructed object; 8 % of the cases end with a value-semantics block (copy-construct / copy-assign / "
+            "move-construct / move-assign from a copy; full oracles on the copy; source probe unchanged by the use of the "
+            "copy; copy's bound references and probe unchanged after the source is overwritten or destroyed; copy == fresh "
+            "object); further classes: constructor arguments as named lvalues / temporaries / std::move, one object for "
+            "both reference parameters G(x,x), the resolution a reference into the interval's own bound, bounds that are "
+            "+0, -0, denormals or the smallest normal, integer bounds with any resolution, points that are +-0 / denormal / "
+            "integer / the origin / all components equal; every full check binds the getters' results by const reference at "
+            "its start, calls every method in several forms (lvalue, temporary, std::move, Eigen expression, the object's "
+            "own cell count as axis argument), builds/uses/assigns/destroys sibling mappings of all four instantiations and "
+            "formats numbers on a stream with changed flags in the middle, and re-reads the kept references and repeats the "
+            "probe at its end; magnitudes stay inside the statement's quantifier (|bound| <= 1e3, 1e-3 <= res <= 10), which "
+            "is far inside the range where the code stays finite, so no empirical magnitude limit applies; per grid "
             "60 (quick) / 100 (thorough) points of the closed extent: all corners, then per coordinate lo, hi, uniform, "
             "cell borders (table centre +- res/2), centres, k*res and (k+0.5)*res in scalar arithmetic and correctly "
             "rounded, log-spaced offsets 1e-8..2 res from a bound, lattice points (res/4)Z, each with 0..3 nextafter steps, "
@@ -65,6 +89,13 @@ CHECK = {
                     "is the float nearest to the decimal (e.g. 0.001f = 0.00100000005)",
                     "a mapping object that is assigned a new configuration must from then on satisfy the statement for the new "
                     "extent and resolution, whatever it served before (object re-use is a configuration history, not a new property)",
+                    "a copy / moved-to / re-assigned mapping answers a fixed probe bit-for-bit like a freshly constructed mapping "
+                    "with the same parameters, results do not depend on the value category or aliasing of the arguments, and "
+                    "getCellResolution() returns the resolution the mapping was built with (value semantics of a deterministic "
+                    "object; the statement's relations alone would also admit a different but self-consistent copy)",
+                    "magnitudes beyond the quantifier (|bound| > 1e3, res outside [1e-3,10]) are not generated: outside the statement",
+                    "other instantiations (other scalars, DIM 1 or >3) do not exist: the class is explicitly instantiated for "
+                    "float/double x 2/3 only in GridIndexMapping.cpp",
                     "g++ 12 ASan+UBSan runtime; asserts live (no -DNDEBUG)"],
 }
 
